@@ -1,5 +1,6 @@
 import NutilsVerif.Proofs.C19WF
 import NutilsVerif.Proofs.C19ParsePrint
+import NutilsVerif.Proofs.C19Sem
 /-!
 # C19 — expression strings mean their index-notation reading: property theorems
 
@@ -68,6 +69,66 @@ theorem reject_summed_twice (s : Sub) (ops : Ops) (shape : List Nat) (indices : 
     | some d => exact ⟨_, rfl⟩
   obtain ⟨e, he⟩ := hm
   exact ⟨e, by simp [trace, he, Except.bind]⟩
+
+/-! ## `_trace` and products at the tensor level: repeated indices are summed -/
+
+/-- **trace_sem** (clause "repeated indices are summed or traced").  Over any scalar algebra and any environment:
+if `_trace` succeeds on an operation tree whose tensor has the recorded shape, then the tree it returns denotes —
+entry by entry, for every assignment `σ` of the free indices — the explicit sum of the incoming labelled tensor
+over all assignments of the (index, length) pairs `tracePairs`, i.e. (by `trace_sums_exactly_repeated`) over exactly
+the indices that occur twice. -/
+theorem trace_sem {α : Type} (E : Env α) (s : Sub) (ops : Ops) (shape : List Nat) (indices : List Char) (parts : List (List Char)) (r : Res)
+    (hlen : shape.length = indices.length) (hsh : (evalOps E ops).shape = shape)
+    (h : trace s ops shape indices parts = .ok r) (σ : Char → Nat) :
+    (evalOps E r.ops).at r.indices σ =
+      sumOver E.alg (tracePairs [] [] indices shape) σ (fun σ' => (evalOps E ops).at indices σ') := by
+  unfold trace at h
+  obtain ⟨sm, _, h⟩ := bind_ok h
+  have := traceGo_sem E s indices ops [] [] sm shape r List.nodup_nil (by simp) rfl hlen (by simpa using hsh) h σ
+  simpa using this
+
+/-- the pairs summed by `_trace` are exactly the indices occurring twice (each once, by `parse_ok_wf`-style nodup) -/
+theorem trace_sums_exactly_repeated (s : Sub) (ops : Ops) (shape : List Nat) (indices : List Char) (parts : List (List Char)) (r : Res)
+    (h : trace s ops shape indices parts = .ok r) (c : Char) :
+    c ∈ (tracePairs [] [] indices shape).map (·.1) ↔ indices.count c = 2 := by
+  unfold trace at h
+  obtain ⟨sm, _, h⟩ := bind_ok h
+  simpa using tracePairs_mem s ops [] [] sm indices shape r List.nodup_nil (by simp) h c
+
+/-- **term_reading** (clause "juxtaposition ... repeated indices are summed"): what `parse_term` returns for two or
+more factors is the Einstein-summation reading of the product — for every assignment of the free indices, the sum
+over the repeated indices of the product of the entries of the factors — for all lists of factors. -/
+theorem term_reading {α : Type} (E : Env α) (s : Sub) (fs : List Res) (r : Res)
+    (hfs : ∀ p ∈ fs, (evalOps E p.ops).shape = p.shape ∧ p.shape.length = p.indices.length)
+    (h : trace s (.mul (fs.map (·.ops))) (fs.map (·.shape)).flatten (fs.map (·.indices)).flatten (fs.map (·.summed)) = .ok r)
+    (σ : Char → Nat) :
+    (evalOps E r.ops).at r.indices σ =
+      sumOver E.alg (tracePairs [] [] (fs.map (·.indices)).flatten (fs.map (·.shape)).flatten) σ
+        (fun σ' => prodAt E.alg (fs.map fun p => (evalOps E p.ops, p.indices)) σ') := by
+  have hlen : (fs.map (·.shape)).flatten.length = (fs.map (·.indices)).flatten.length := by
+    clear h
+    induction fs with
+    | nil => rfl
+    | cons p ps ih =>
+      simp only [List.map_cons, List.flatten_cons, List.length_append]
+      rw [(hfs p List.mem_cons_self).2, ih (fun x hx => hfs x (List.mem_cons_of_mem _ hx))]
+  have hsh : (evalOps E (.mul (fs.map (·.ops)))).shape = (fs.map (·.shape)).flatten := by
+    simp only [evalOps, List.map_map]
+    congr 1
+    apply List.map_congr_left
+    intro p hp; exact (hfs p hp).1
+  rw [trace_sem E s _ _ _ _ r hlen hsh h σ]
+  apply sumOver_congr
+  intro σ'
+  have := mulGet_at E.alg σ' (fs.map fun p => (evalOps E p.ops, p.indices)) (by
+    intro q hq
+    rw [List.mem_map] at hq
+    obtain ⟨p, hp, rfl⟩ := hq
+    simp only []
+    rw [(hfs p hp).1, (hfs p hp).2])
+  simp only [List.map_map] at this
+  simp only [Tensor.at, evalOps, List.map_map]
+  exact this
 
 /-! ## every accepted string has sound bookkeeping (all strings, all contexts) -/
 
